@@ -167,3 +167,112 @@ def compare_steps(got, want, rel=1e-11, abs_=1e-11):
     if len(got["steps"]) != len(want):
         return dict(what="number of steps", implementation=len(got["steps"]), model=len(want))
     return None
+
+
+# ------------------------------------------------------------------ case generation
+
+def sea_positions(gs, sub, r, n):
+    """Random dyadic positions in sea cells of the valid region of the subgrid."""
+    i0, i1, j0, j1 = sub
+    out = []
+    tries = 0
+    while len(out) < n and tries < 2000:
+        tries += 1
+        x = r.randint(int((i0 + 0.5) * 16) + 1, int((i1 - 1.5) * 16)) / 16.0
+        y = r.randint(int((j0 + 0.5) * 16) + 1, int((j1 - 1.5) * 16)) / 16.0
+        ci, cj = int(np.round(x)), int(np.round(y))
+        if gs["mask"][cj, ci] > 0:
+            out.append((x, y))
+    return out
+
+
+def random_case(seed, schemes=("EF", "RK2", "RK4"), diffusion=False, vertical=False, nsteps=5, npart=14, subgrids=True, fast=True):
+    r = np.random.RandomState(seed)
+    gs = grid_spec(seed, land=True)
+    imax, jmax = gs["imax"], gs["jmax"]
+    sub = None
+    eff = (1, imax - 1, 1, jmax - 1)
+    if subgrids and r.rand() < 0.5:
+        a = r.randint(1, 4); b = r.randint(imax - 4, imax)
+        c = r.randint(1, 3); d_ = r.randint(jmax - 3, jmax)
+        sub = [int(a), int(b), int(c), int(d_)]
+        eff = tuple(sub)
+    pos = sea_positions(gs, eff, r, npart)
+    if not pos:
+        gs["mask"][:] = 1
+        pos = sea_positions(gs, eff, r, npart)
+    scheme = str(r.choice(schemes))
+    dt = int(2 ** r.randint(2, 8))
+    dxv = float(np.min(gs["dx"]))
+    speed = float(r.choice([0.2, 0.6, 2.5] if fast else [0.2, 0.5])) * dxv / dt      # up to ~2.5 cells per step
+    q = lambda: Fraction(int(r.randint(-16, 17)), 16)  # noqa: E731
+    cu = [q() * Fraction(speed), q() * Fraction(speed) / 8, q() * Fraction(speed) / 8, q() * Fraction(speed) / 4, 0, 0, 0]
+    cv = [q() * Fraction(speed), q() * Fraction(speed) / 8, q() * Fraction(speed) / 8, q() * Fraction(speed) / 4, 0, 0, 0]
+    parts = []
+    for (x, y) in pos:
+        cj, ci = int(np.round(y)), int(np.round(x))
+        h = float(gs["h"][cj, ci])
+        z = float(r.choice([0.0, h, h / 2, h / 4, 1.0]))
+        alive = 1
+        active = 1 if r.rand() < 0.85 else 0
+        if r.rand() < 0.1:
+            alive = 0
+        parts.append([x, y, z, alive, active])
+    case = dict(grid=gs, subgrid=sub, scheme=scheme, dt=dt, cu=[str(c) for c in cu], cv=[str(c) for c in cv],
+                particles=parts, nsteps=nsteps, seed=seed)
+    draws = [[] for _ in range(nsteps)]
+    n = len(parts)
+    if diffusion:
+        s = float(r.choice([0.25, 1.0, 4.0])) * dxv / dt / 4      # stddev, exactly representable
+        case["D"] = s * s * dt / 2.0
+        for k in range(nsteps):
+            draws[k] += [float(x) / 8 for x in r.randint(-24, 25, size=2 * n)]
+    if vertical:
+        if r.rand() < 0.7:
+            s = float(r.choice([0.125, 0.5, 1.0]))
+            case["Dz"] = s * s * dt / 2.0
+            for k in range(nsteps):
+                draws[k] += [float(x) / 8 for x in r.randint(-24, 25, size=n)]
+        if r.rand() < 0.7:
+            case["vertadv"] = True
+            case["w"] = [[float(x) / 64 for x in r.randint(-48, 49, size=n)] for _ in range(nsteps)]
+            # keep |w dt| moderate
+            case["w"] = [[w * 8.0 / dt for w in row] for row in case["w"]]
+    if diffusion or vertical:
+        case["draws"] = draws
+    return case
+
+
+def small(case):
+    """A compact, replayable description of a case (the grid is regenerated from its seed)."""
+    return {k: v for k, v in case.items() if k != "grid"} | dict(grid="harness.trk.grid_spec(seed, land=True)")
+
+
+def invariant_monitor(case, res):
+    """C09's statements on the implementation's own output."""
+    bad = []
+    i0, i1, j0, j1 = res["limits"]
+    M = np.array(res["M"])
+    prev = dict(X=[p[0] for p in case["particles"]], Y=[p[1] for p in case["particles"]],
+                alive=[bool(p[3]) for p in case["particles"]], active=[bool(p[4]) for p in case["particles"]])
+    for n, s in enumerate(res["steps"]):
+        if "error" in s:
+            bad.append(f"step {n}: raised {s['error']}")
+            break
+        for k in range(len(s["X"])):
+            x, y = s["X"][k], s["Y"][k]
+            if not (np.isfinite(x) and np.isfinite(y)):
+                bad.append(f"step {n} particle {k}: position not finite")
+                continue
+            inside = (i0 + 0.5 < x < i1 - 1.5) and (j0 + 0.5 < y < j1 - 1.5)
+            if s["alive"][k] and prev["alive"][k] and prev["active"][k]:
+                if not inside:
+                    bad.append(f"step {n} particle {k}: alive outside the valid region at ({x}, {y})")
+                elif M[int(np.round(y)) - j0, int(np.round(x)) - i0] < 1:
+                    bad.append(f"step {n} particle {k}: alive on land at ({x}, {y})")
+            if s["alive"][k] and not prev["alive"][k]:
+                bad.append(f"step {n} particle {k}: a dead particle became alive")
+            if not prev["active"][k] and (x != prev["X"][k] or y != prev["Y"][k]):
+                bad.append(f"step {n} particle {k}: an inactive particle was moved")
+        prev = s
+    return bad
